@@ -590,7 +590,8 @@ def render_template_evaluation_error(
     template_error: TemplateEvaluationError, indent_size: int = 4
 ):
     assert template_error.template
-    assert template_error.expression
+    # The rendered expression might be empty (template consisting of blank characters only)
+    assert template_error.expression is not None
 
     log.error("While processing file %r with template:", template_error.file)
     log.error(indent(template_error.template, " " * indent_size))
